@@ -267,6 +267,8 @@ def cut_loop(ex, state, st, kind, spec, ordinal):
     preserved = set(spec.get("preserves", []))
     for path in sorted((attrs | subs | set(spec.get("modifies", []))) - preserved):
         parts = path.split(".")
+        if len(parts) == 1 and parts[0] in spec.get("vars", {}):
+            continue        # a local given a fresh value of its declared type above
         if parts[0] in ex.reg.shapes and len(parts) == 2 and parts[0] not in state.frame.locals:
             calls.havoc_sym_field(ex, state, parts[0], parts[1])
             continue
@@ -398,11 +400,40 @@ def _spec_env(ex, s):
 
 # ------------------------------------------------------------------------------------------ comprehensions
 
+def _list_comp_symbolic(ex, state, e, g, v):
+    """[f(x) for x in xs] over a list of unknown length: a *sound over-approximation* -- the result has the length of xs
+    and elements of the kind f yields; f is evaluated once on an arbitrary element so that whatever it may raise is
+    accounted for; the element values themselves are left unknown"""
+    from .engine import value_of_elem, elem_sort
+    src = ex.obj(state, v)
+    k = z3.Int(fresh_name("comp_k"))
+    state.assume(z3.And(k >= 0, k < z3.Length(src.seq)))
+    fr = Frame(None, {}, closure=state.frame)
+    fr.module = state.frame.module
+    state.frames.append(fr)
+    try:
+        ex.assign(state, g.target, value_of_elem(src.elem, src.seq[k]))
+        sample = ex.ev(state, e.elt)
+    finally:
+        state.frames.pop()
+    kind = {"str": "str", "int": "int", "bytes": "bytes", "bool": "bool"}.get(getattr(sample, "kind", None))
+    if kind is None:
+        raise Unsupported("comprehension over a symbolic list yielding %r" % (sample,))
+    o = HObj("list")
+    o.items, o.elem = None, kind
+    o.seq = z3.Const(fresh_name("comp"), z3.SeqSort(elem_sort(kind)))
+    state.assume(z3.Length(o.seq) == z3.Length(src.seq))
+    ex.notes["assumed"].add("list comprehension over a list of unknown length is over-approximated (length only)")
+    return state.alloc(o)
+
+
 def list_comp(ex, state, e):
     if len(e.generators) != 1:
         raise Unsupported("nested comprehension")
     g = e.generators[0]
     v = ex.ev(state, g.iter)
+    if isinstance(v, VRef) and ex.obj(state, v).kind == "list" and ex.obj(state, v).items is None and not g.ifs:
+        return _list_comp_symbolic(ex, state, e, g, v)
     items = concrete_items(ex, state, v, e)
     out = []
     fr = Frame(None, {}, closure=state.frame)
